@@ -152,7 +152,7 @@ Proof.
   destruct (resolve_prime (b_prime (h_b h)) (q_uri r, None)) as [st tr1]. cbn [snd].
   destruct (cache_hit h c (sanitize r) (q_method r) (key_uri st)) as [sb|].
   - unfold send. cbn [fst]. rewrite resolve_post_map. unfold resolve_package.
-    destruct (client_view (q_method r) (apply_range (sanitize r) sb)) as [status body] eqn:E.
+    destruct (respond (q_method r) (sanitize r) 1 sb) as [status body] eqn:E.
     exists status, body, [], []. cbn [app length]. repeat split; try constructor. constructor.
   - set (gen := match sanitize r with
                 | SanOk _ => handle_request h (q_method r) st
@@ -170,10 +170,10 @@ Proof.
     destruct gen as [[[status body] pref] tr2]. cbn [snd] in Hgen. destruct Hgen as [HP HL].
     unfold resolve_present. destruct (Htot body) as [x Hx]. rewrite Hx.
     destruct x as [p|]; unfold send; cbn [fst]; rewrite resolve_post_map; unfold resolve_package.
-    + destruct (client_view (q_method r) (apply_range (sanitize r) (status, p_body p))) as [s' b'] eqn:E.
+    + destruct (respond (q_method r) (sanitize r) pref (status, p_body p)) as [s' b'] eqn:E.
       exists s', b', tr2, (present_events (b_present_fn (h_b h)) (b_present_file (h_b h)) (b_present_internal (h_b h)) (fst st) (p_entries p)).
       split; [|split; [exact HP|split; [exact HL|apply present_events_are]]]. reflexivity.
-    + destruct (client_view (q_method r) (apply_range (sanitize r) (status, body))) as [s' b'] eqn:E.
+    + destruct (respond (q_method r) (sanitize r) pref (status, body)) as [s' b'] eqn:E.
       exists s', b', tr2, (present_events (b_present_fn (h_b h)) (b_present_file (h_b h)) (b_present_internal (h_b h)) (fst st) []).
       split; [|split; [exact HP|split; [exact HL|apply present_events_are]]]. reflexivity.
 Qed.
@@ -183,7 +183,7 @@ Lemma cache_hit_skips_model parse (h : hostcfg) (c : cache) (r : creq) st sb :
   fst (resolve_prime (b_prime (h_b h)) (q_uri r, None)) = st ->
   cache_hit h c (sanitize r) (q_method r) (key_uri st) = Some sb ->
   serve parse h c r =
-  ((Ok (client_view (q_method r) (apply_range (sanitize r) sb)),
+  ((Ok (respond (q_method r) (sanitize r) 1 sb),
     snd (resolve_prime (b_prime (h_b h)) (q_uri r, None))
     ++ map (fun e => EPackage (fst e)) (b_package (h_b h)) ++ map (fun e => EPost (fst e)) (b_post (h_b h))), c).
 Proof.
